@@ -77,6 +77,17 @@ def step (st : St) (toks : List String) : St × String :=
       | some P' => ({ st with P := P' }, "ok")
       | none => (st, "err")
     | _, _ => (st, "bad-op")
+  | ["msgset", id, v, sv] =>
+    -- MsgSetNetworkProperties carrying the stored record with ONE field replaced: the whole record is validated and
+    -- stored, or rejected and nothing changes (no per-property guard on this path)
+    match nat? id, nat? v with
+    | some id, some v =>
+      match arms.find? (fun a => a.id == id) with
+      | some a => match loadField st.P a.get v (dec sv) with
+        | some P' => if validate opaqueSem conds P' then ({ st with P := P' }, "ok") else (st, "err")
+        | none => (st, "err")
+      | none => (st, "err")
+    | _, _ => (st, "bad-op")
   | ["dryrun", id, v, sv] =>
     -- a set executed on a cache context that is then discarded (MsgSubmitProposal's dry run, a failed message):
     -- same verdict, no effect on the stored record
